@@ -430,6 +430,10 @@ def run(ctx):
     tier = "quick" if ctx.tier == "quick" else "thorough"
     d = ctx.tlc_expect_ok("DoIf", "DoIf_%s.cfg" % tier, timeout=1500, deadlock=False)
     m = ctx.tlc_expect_ok("MatchFields", "MatchFields_%s.cfg" % tier, timeout=900, deadlock=False)
+    if tier == "thorough":
+        # residual configurations: all deviation switches off; the invariants must hold with no excuse
+        ctx.tlc_expect_ok("DoIf", "DoIf_fixed.cfg", count=False, timeout=900, deadlock=False)
+        ctx.tlc_expect_ok("MatchFields", "MatchFields_fixed.cfg", count=False, timeout=600, deadlock=False)
     sets, abs_events, rules = build_cases(ctx, d.printed, m.printed)
     ndoif = sum(1 for r in rules if r.kind == "doif")
     nmf = len(rules) - ndoif
@@ -460,3 +464,8 @@ def run(ctx):
         "the oracle accepts both outcomes and only checks order/path independence",
     ]
     ctx.classify(recs)
+    stale = [f["id"] for f in vlib.load_findings("C14") if f.get("status") == "known" and f["id"] not in ctx.known_hits]
+    if stale:
+        vlib.log("NOTE: known finding(s) not reproduced on this tree (repaired? then mark them fixed and drop the "
+                 "deviation switch from the specification): %s" % ", ".join(stale))
+        ctx.extra["known_findings_not_reproduced"] = stale
